@@ -1456,3 +1456,33 @@ def safe_walrus_find_not_found_replaced(module: Node) -> str:
     if (end := module.find(".")) < 0:
         end = len(module)
     return module[:end]
+
+
+def safe_find_after_separator_test(module: Node) -> str:
+    if "." not in module:
+        return module
+    end = module.find(".")
+    return module[:end]
+
+
+def safe_find_replaced_when_no_separator(module: Node) -> str:
+    end = module.find(".")
+    if "." not in module:
+        end = len(module)
+    return module[:end]
+
+
+def unsafe_find_after_inverted_separator_test(module: Node) -> str:
+    end = len(module)
+    if "." not in module:
+        end = module.find(".")
+    return module[:end]
+
+
+def unsafe_position_of_another_name_after_reassignment(module: Node, other: Node) -> str:
+    name = module
+    end = name.find(".")
+    if end < 0:
+        end = len(name)
+    name = other
+    return name[:end]
